@@ -61,7 +61,7 @@ PushBlobEffect(op) ==
      ELSE /\ nsess' = nsess + 1
           /\ sess' = Upd(sess, Handle(nsess + 1), [NoSess EXCEPT !.repo = op.repo])
   /\ resp' = Ok(201)
-  /\ UNCHANGED <<env, man, tag>>
+  /\ UNCHANGED <<env, base, man, tag>>
 
 ManPutOp(r, ref, c, ct, lk, dp) ==
   [op |-> "ManPut", repo |-> r, ref |-> ref, ctype |-> ct, ctvar |-> "", body |-> c, lenKnown |-> lk, dparam |-> dp]
@@ -144,7 +144,9 @@ FUpPost ==
   \* monolithic, matching and mismatching digest
   \cup {UpPostOp(r, d, "", "", "", [c |-> c, p |-> "all"]) : r \in GR, d \in BlobDigs, c \in BlobCids}
   \* cross repository mount: source holds it / does not / is unknown; mount without from
-  \cup {UpPostOp(r, "", "", d, f, NoChunk) : r \in GR, d \in BlobDigs, f \in GR \cup {"r9", ""}}
+  \* (G6: not for a digest the target already holds -- a memory store over a directory answers that differently
+  \*  depending on where the blob lives, and no property pins it)
+  \cup {o \in {UpPostOp(r, "", "", d, f, NoChunk) : r \in GR, d \in BlobDigs, f \in GR \cup {"r9", ""}} : o.mount \notin blob[o.repo]}
 FUpPatchOk ==
   UNION { {[op |-> "UpPatch", repo |-> sess[h].repo, sess |-> h, cr |-> cr, st |-> "ok", chunk |-> ch] :
              cr \in {"none", "ok"},
@@ -201,6 +203,12 @@ FamOps(f) ==
     [] f = "updel"    -> FUpDel
     [] f = "gc"       -> {[op |-> "GC", repo |-> r] : r \in GR}
     [] f = "age"      -> {[op |-> "Age", repo |-> r] : r \in GR}
+    [] f = "reconf"   -> {[op |-> "Reconf", newcfg |-> c] : c \in Range(CatFile.reconf)}
+    [] f = "manputany" -> OpsManPutGood          \* also when the configuration refuses it
+    [] f = "mandelany" -> {o \in OpsManDel : o.ref.k = "dig" => (Resolve(o.repo, o.ref) = "" \/ (G2(o.repo, o.ref.v) /\ G4(o.repo, o.ref.v)))}
+    [] f = "blobdelany" -> {o \in OpsBlobDel : G3(o.repo, o.dig)}
+    [] f = "mountbad" -> {o \in {UpPostOp(r, "", "", d, f2, NoChunk) : r \in GR, d \in BlobDigs,
+                                 f2 \in {"raw:../victim", "raw:../../victim", "raw:proj/../../victim", "raw:/victim"}} : o.mount \notin blob[o.repo]}
     [] f = "gcrefs"   -> {[op |-> "GC", repo |-> r] : r \in {x \in GR : G5(x)}}
     [] f = "gcpass"   -> {[op |-> "GCPass"]}
     [] f = "mkcorrupt" -> {[op |-> "MkCorrupt", repo |-> "raw:zzz/broken", which |-> w] : w \in {"corrupt", "phantom", "removed"}}
@@ -216,6 +224,13 @@ Weights ==
     [] Profile = "refs" -> <<"pushblob", "pushblob", "manput", "manput", "manput", "manput", "mandel", "mandel", "restart">>
     [] Profile = "gc" -> <<"pushblob", "pushblob", "manput", "manput", "manput", "manput", "manput", "mandel", "mandel",
                            "blobdel", "gc", "gc", "gc", "age", "age">>
+    [] Profile = "layout" -> <<"pushblob", "pushblob", "manput", "manput", "manput", "manput", "mandel", "mandel", "blobdel",
+                               "gc", "gc", "age", "restart", "restart", "uppost", "uppatch", "upput", "updel">>
+    [] Profile = "ro" -> <<"pushblob", "pushblob", "manput", "manput", "manput", "mandel", "reconf", "reconf",
+                           "manputany", "mandelany", "blobdelany", "uppost", "uppatch", "upput", "gc", "gcpass", "restart",
+                           "blobget", "manget", "tagslist">>
+    [] Profile = "iso" -> <<"pushblob", "pushblob", "manput", "manput", "manput", "mandel", "uppost", "uppost", "uppatch",
+                            "upput", "sessbad", "mountbad", "mountbad", "restart", "gc", "blobdel">>
     [] Profile = "gcrefs" -> <<"pushblob", "pushblob", "manput", "manput", "manput", "manput", "manput", "mandel", "mandel",
                                "gcrefs", "gcrefs", "age">>
     [] Profile = "gcpass" -> <<"pushblob", "pushblob", "manput", "manput", "manput", "manput", "mandel", "blobdel",
